@@ -18,3 +18,12 @@ PROPS = {
         "assumptions": [],
     },
 }
+
+_RELAY_TB = [
+    "the abstraction from wire messages to model events is done by the harness, which records what it built "
+    "(credential descriptor, attribute presence/size, environment choice of relay port)",
+    "pion/stun message building/decoding, MESSAGE-INTEGRITY computation and the Go runtime's timers are not modelled",
+    "testing/synctest virtual clock: events are issued off the timer grid so that no event coincides with a deadline",
+]
+for _p in ("C01", "C02", "C03", "C04", "C05", "C06", "C07", "C08", "C15", "C19"):
+    PROPS[_p] = {"pkgs": [(".", "TestVerif_" + _p)], "trusted_base": _RELAY_TB, "assumptions": []}
